@@ -68,6 +68,16 @@ def run_optimized(ctx):
     res.rule("python-O", n)
 
 
+def _reachable(post, pre):
+    """post without the links a failed constructor allocated and attached nowhere (no vertex lists them, they name no vertex): such an object
+    is garbage the caller never received, not a change of the graph"""
+    listed = {l for ls in post["vlinks"].values() for l in ls}
+    drop = [n for n, ends in post["lverts"].items() if n not in pre["lverts"] and n not in listed and not any(e is not None and e != "None" for e in ends)]
+    if not drop:
+        return post
+    return {"vlinks": post["vlinks"], "lverts": {n: e for n, e in post["lverts"].items() if n not in drop}}
+
+
 def run_warnings_as_errors(ctx):
     """a mutator that a warning-turned-error ends must not stop half-way: the graph is as before, or as the completed call leaves it"""
     res = ctx.res
@@ -80,7 +90,7 @@ def run_warnings_as_errors(ctx):
         n += 1
         model = rec.model.as_dict() if rec.model is not None else None
         done = model is not None and not struct.diff_states(rec.post, model)
-        ok = rec.post == rec.pre or done
+        ok = _reachable(rec.post, rec.pre) == rec.pre or done
         res.ob(ok, sig=("warn", rec.family, rec.lcls, rec.ends, rec.op, rec.arg))
         if not ok:
             res.violation("MODEL-STEP", rec.qual, rec.icls, f"{rec.op}({rec.arg}) on a {rec.lcls} with ends {list(rec.ends)} raises {rec.out.excname} half-way: the graph is neither as before nor as the completed call leaves it: "
